@@ -14,6 +14,12 @@ def main(tier):
     rep.assume('cutoffs and obstruction distances are drawn midway between distinct shell / perpendicular distances so that no case sits on a tolerance boundary')
     rep.trust('the brute-force spec (all (i, j, R) in a strictly larger lattice window; obstruction by the segment-distance criterion) is written independently of the code but not itself verified')
     rep.gaps.append('catalogue crystals, every species, first 2 (quick) / 3 (thorough) shells, scalar and per-species obstruction distances only')
+    # maptranslation (the search behind every symmetry operation) under E1 contract (level P): a returned mapping really maps, for every
+    # meaning of the two floating-point tests
+    from vf.pyvc import driver
+    from contracts import maptranslation_c as MT
+    driver.verify_function(MT.MapTranslation(), rep, tier)
+    for a in MT.MapTranslation.ABSTRACTED: rep.assume('maptranslation contract, abstracted: ' + a)
     return finish(rep, 'exploration',
                   'Postcondition of Crystal.jumpnetwork against a brute-force enumeration: same set of jumps, each once, classes are exactly the orbits '
                   'under the space group and reversal, obstructed jumps removed (scalar and per-species distances), lattice form encodes the same jumps.',
